@@ -509,7 +509,7 @@ def gen_cases(pid, tier, seed):
         n[0] += 1
         cases.append(mk(kind, L, op, n[0], seed * 100000 + n[0], **kw))
 
-    nrand = 24 if full else 2
+    nrand = 60 if full else 2
     r3 = [rand_t3_layout(rnd, big=(i % 2 == 1)) for i in range(nrand)]
     re = [rand_t3_layout(rnd) for i in range(nrand // 2)]
     r4 = [rand_t4_layout(rnd, safe=(pid != "C01")) for i in range(nrand)]
@@ -524,6 +524,8 @@ def gen_cases(pid, tier, seed):
             add("emu", L, "read")
             for m in t3_lengths(L, rnd, full):
                 add("emu", L, "write", mlen=m)
+        for m in ([4097, 4800] if not full else [4095, 4096, 4097, 4799, 4800, 4801]):
+            add("emu", T3_BIG, "write", mlen=m)          # block numbers >= 256 through the emulation
         for L in T4_LAYOUTS + T4_C01_ONLY + r4:
             add("t4", L, "read")
             for m in t4_lengths(L, rnd, full):
@@ -747,7 +749,34 @@ def selftest_traces(traces):
     return out
 
 
+def sim_selfcheck():
+    """The simulators must answer the repository's own transcripts byte for byte
+    (tests/test_tag_tt4.py::test_write_ndef_data_long, tests/test_tag_tt3.py::test_ndef_write)."""
+    H = lambda x: bytes.fromhex(x.replace(" ", ""))       # noqa: E731
+    t = SimT4T(ver=0x20, tlv_tag=4, mle=0x3b, mlc=0x34, mfs=0x40, ndef=H("000e d1010a55036e666370792e6f7267"))
+    t.exchange(H("E080"))
+    cr = [("02 00a4040007 d276000085010100", "02 9000"), ("03 00a4000c02 e103", "03 9000"),
+          ("02 00b0000002", "02 000f 9000"), ("03 00b000020d", "03 20 003b 0034 04 06 e104 0040 00 00 9000"),
+          ("02 00a4000c02 e104", "02 9000"), ("03 00b0000002", "03 000e 9000"),
+          ("02 00b000020e", "02 d1010a55 036e6663 70792e6f 7267 9000"),
+          ("03 00d6000034 0000d5003b30" + "30" * 46, "03 9000"), ("02 00d600340c" + "30" * 12, "02 9000"),
+          ("03 00d6000002 003e", "03 9000")]
+    if not all(t.exchange(H(c)) == H(r) for c, r in cr):
+        raise tlc.TLCError("SimT4T does not reproduce tests/test_tag_tt4.py::test_write_ndef_data_long")
+    s = SimT3T(H("10 02 02 00 03 00 00 00 00 00 01 00 00 00 00 18"), idm=H("0102030405060708"), pmm=H("FF" * 8))
+    a = "0102030405060708"
+    cr = [("10 06" + a + "010b00 018000", "1d 07" + a + "0000 01 10 02 02 00 03 00 00 00 00 00 01 00 00 00 00 18"),
+          ("20 08" + a + "010900 018000 1002020003000000000f010000000027", "0c 09" + a + "0000"),
+          ("32 08" + a + "010900 0280018002 d10222537091010e55036e66632d666f 72756d2e6f726751010c5402656e4e46",
+           "0c 09" + a + "0000"),
+          ("20 08" + a + "010900 018003 4320466f72756d000000000000000000", "0c 09" + a + "0000"),
+          ("20 08" + a + "010900 018000 1002020003000000000001000027003f", "0c 09" + a + "0000")]
+    if not all(s.exchange(H(c)) == H(r) for c, r in cr):
+        raise tlc.TLCError("SimT3T does not reproduce tests/test_tag_tt3.py::test_ndef_write")
+
+
 def conformance_stage(ck, pid, tier, seed):
+    sim_selfcheck()
     cases = gen_cases(pid, tier, seed)
     traces = []
     info = {}
